@@ -52,14 +52,14 @@ def judge(ctx, prof, cases, impl, bad_prefixes=("BAD", "BADUTF8", "REUSE-MISMATC
 
 
 def guarded(ctx, stream, cases, prof, **kw):
-    """ctx.correspond preceded by a pilot (every 41st case): when the pilot alone already shows several hangs / aborts the
+    """ctx.correspond preceded by a pilot (every 41st case): when a pilot case dies (hang / abort) the
     full stream is skipped for this profile -- a change that hangs on a large share of the inputs would otherwise cost
     WATCHDOG_MS per case.  The pilot's failures are reported (key crash-<kind>) with their replay inputs."""
     pilot = cases[::41]
     impl, _ = ctx.correspond(stream + "_pilot", pilot, profile=prof, model=False, nontrivial=lambda c, i: False)
     got = impl[len(impl) - len(pilot):]
     dead = [(c, o) for c, o in zip(pilot, got) if o in ("ABORT", "HANG")]
-    if len(dead) >= 3:
+    if len(dead) >= 1:
         for c, o in dead:
             ctx.fail("crash-" + inner_kind(c), "%s build: %s on %s  (pilot run; %d of %d pilot cases died, the full stream %s was skipped; ABORT = process "
                      "abort, stack overflow or the %d ms per-case watchdog, i.e. a hang)" % (prof, o, c[:200].replace("\t", " "), len(dead), len(pilot), stream, WATCHDOG_MS),
